@@ -280,6 +280,26 @@ class Engine:
             self.solver.add(e == v)
             return v
 
+    def pc_mentions_havoc(self):
+        """does the path condition mention a cell of an np.empty array (control flow decided by uninitialised memory)?"""
+        if not HAVOC or self.solver is None:
+            return []
+        names = {str(h.e) for h in HAVOC}
+        found = set()
+        seen = set()
+        stack = [a for a in self.solver.assertions() if a.get_id() not in HAVOC_RANGE_IDS]
+        while stack:
+            t = stack.pop()
+            if t.get_id() in seen:
+                continue
+            seen.add(t.get_id())
+            if z3.is_const(t) and t.decl().kind() == z3.Z3_OP_UNINTERPRETED:
+                if str(t) in names:
+                    found.add(str(t))
+            else:
+                stack.extend(t.children())
+        return sorted(found)
+
     def loop_guard(self):
         self.loop_count += 1
         self.stats["loop_iters"] += 1
@@ -304,6 +324,7 @@ class Engine:
         self.solver = z3.Solver()
         self.solver.set("timeout", self.solver_timeout_ms)
         HAVOC.clear()
+        HAVOC_RANGE_IDS.clear()
         del FLAGS.hazards[:]
 
     def run_paths(self, body, prefixes, max_paths=10**9, deadline=None, on_abort=None):
@@ -1059,6 +1080,7 @@ def full(shape, fill_value=0, dtype=None):
 
 
 HAVOC = []
+HAVOC_RANGE_IDS = set()  # the dtype-range facts about havoc cells are not control dependence
 
 
 def empty(shape, dtype=None):
@@ -1077,7 +1099,10 @@ def empty(shape, dtype=None):
             vals.append(mk_bool(h.e != 0))
         else:
             if rng:
-                ENGINE.solver.add(h.e >= rng[0], h.e <= rng[1])
+                c1, c2 = h.e >= rng[0], h.e <= rng[1]
+                HAVOC_RANGE_IDS.add(c1.get_id())
+                HAVOC_RANGE_IDS.add(c2.get_id())
+                ENGINE.solver.add(c1, c2)
             vals.append(h)
     return SArray(vals, shape, dtype=dt)
 
